@@ -699,6 +699,16 @@ def run(run):
     poolsize(run, fx)
     poolcount(run, fx)
     from . import ordint as O_
+    try:
+        from . import c02
+        cases_, bad_ = c02.newslot_exec(run, fx)      # addLineEnd(NULL) takes a slot from newSlot and relies on its next link being null (shared with C02, C03)
+        ns_ = fx.one('graphite2::Segment::newSlot')
+        if bad_:
+            run.violated('LINEENDPAIR', 'newSlot hands out an unlinked slot (interpreted)', ns_.where(), bad_)
+        else:
+            run.held('LINEENDPAIR', 'newSlot hands out an unlinked slot (interpreted)', ns_.where(), '%d abstract executions' % cases_)
+    except O_.AnalysisBroken as ex:
+        run.broken('LINEENDPAIR', 'newSlot hands out an unlinked slot (interpreted)', str(ex), '')
     rs_ = fx.one('graphite2::Segment::reverseSlots')
     inst_ = 'reverseSlots: well-formed chain, documented order, its own inverse (interpreted)'
     try:
